@@ -141,6 +141,26 @@ Section Tools.
 
   Lemma apply_all_app (d : db) a b : apply_all d (a ++ b) = apply_all (apply_all d a) b.
   Proof. unfold apply_all. apply fold_left_app. Qed.
+
+  (* batches that write disjoint keys commute *)
+  Lemma apply_comm (d : db) (a b : batch) :
+    (forall k, sem a k = None \/ sem b k = None) ->
+    db_eq (apply (apply d a) b) (apply (apply d b) a).
+  Proof.
+    intros H k. rewrite !get_apply. destruct (H k) as [E|E]; rewrite E; destruct (sem a k), (sem b k); try reflexivity; discriminate.
+  Qed.
+
+  (* a sequence of batches of which the first sets a key, and each later one sets it or leaves it alone *)
+  Lemma get_apply_all_keeps (P : option val -> Prop) (k : key) (bs : list batch) (d : db) :
+    P (get d k) ->
+    (forall b, In b bs -> match sem b k with Some v => P v | None => True end) ->
+    P (get (apply_all d bs) k).
+  Proof.
+    revert d; induction bs as [|b t IH]; intros d H0 H; simpl; auto.
+    apply IH.
+    - rewrite get_apply. specialize (H b (or_introl eq_refl)). destruct (sem b k); auto.
+    - intros b' Hb. apply H. right; auto.
+  Qed.
 End Tools.
 
 Section Reset.
@@ -294,6 +314,21 @@ Section Reset.
     | _ => get x k
     end.
   Proof. rewrite get_apply. destruct k; reflexivity. Qed.
+
+  (* what the stage batches write to the stage marker, and that only the collection touches contract storage
+     of the old prefix while the state root / transfer stage touches no contract storage at all *)
+  Lemma sem_b4_state h (x : db) q : sem (b4 h x) (KState q) = None.
+  Proof using St Rt.
+    clear exec root genesis ntx unroot.
+    unfold reset_b4. rewrite !sem_app, !sem_map_keys, !existsb_scan. simpl.
+    destruct (get x (KRoot h)); reflexivity.
+  Qed.
+
+  Lemma sem_gc_other (x : db) k : (forall q, k <> KState q) -> sem (bgc x) k = None.
+  Proof. intros H. unfold reset_gc. destruct k; simpl; try reflexivity. exfalso. apply (H p). reflexivity. Qed.
+
+  Lemma sem_gc_stage (x : db) : sem (bgc x) KStage = None.
+  Proof. reflexivity. Qed.
 
 End Reset.
 
@@ -581,6 +616,173 @@ Section ResetThm.
       unfold Stages.boot. rewrite (recover_inv exec root genesis ntx PS (fun _ => []) trusted PS_big x7 (negb p) h h reset_final_inv).
       simpl. replace (get x7 KSyncPoint) with (@None val) by (gx; reflexivity).
       repeat split; auto; intros key; reflexivity.
+  Qed.
+
+  (* ================= the order of Reset's two writers (Stages.reset_order) ================= *)
+  Definition ordered (j k : nat) : db := apply_all d (firstn k (reset_order all_batches j)).
+  Definition marker_on (x : db) : Prop := exists s, get x KStage = Some (VStage true s).
+
+  Lemma order_5 : reset_order all_batches 5 = all_batches.
+  Proof. reflexivity. Qed.
+  Lemma order_4 :
+    reset_order all_batches 4 = [b0 h d; b1 h c x1; b2 h x2; b3 h hh x3; bgc x5; b4 h x4; b5 x6].
+  Proof. reflexivity. Qed.
+
+  Lemma sem_b0_stage y (x : db) : sem (b0 y x) KStage = Some (Some (VStage true 2)).
+  Proof. reflexivity. Qed.
+  Lemma sem_b1_stage y z (x : db) : sem (b1 y z x) KStage = Some (Some (VStage true 8)).
+  Proof. unfold reset_b1. rewrite !sem_app. reflexivity. Qed.
+  Lemma sem_b2_stage y (x : db) : sem (b2 y x) KStage = Some (Some (VStage true 4)).
+  Proof. unfold reset_b2. rewrite sem_app. reflexivity. Qed.
+  Lemma sem_b3_stage y z (x : db) : sem (b3 y z x) KStage = Some (Some (VStage true 16)).
+  Proof. unfold reset_b3. rewrite !sem_app. reflexivity. Qed.
+  Lemma sem_b4_stage y (x : db) : sem (b4 y x) KStage = Some (Some (VStage true 32)).
+  Proof. unfold reset_b4. rewrite !sem_app. reflexivity. Qed.
+
+  (* Invariant of the order.  It needs ONE edge only: the direct operation reaches the store after the batch that
+     carries the reset marker (j >= 1).  Then at every boundary either the marker is on disk (start-up resumes
+     the reset, which rebuilds the contract storage from the trie), or nothing of the reset has happened, or all of it. *)
+  Theorem reset_marker_or_intact (j k : nat) :
+    (1 <= j <= 5)%nat -> (k <= 7)%nat ->
+    marker_on (ordered j k) \/ db_eq (ordered j k) d \/ k = 7%nat.
+  Proof.
+    intros Hj Hk.
+    assert (K : (k = 0 \/ k = 7 \/ (1 <= k <= 6))%nat) by lia.
+    destruct K as [->|[->|K]]; [right; left; intros key; reflexivity|right; right; reflexivity|].
+    left. unfold marker_on, ordered.
+    assert (J : (j = 1 \/ j = 2 \/ j = 3 \/ j = 4 \/ j = 5)%nat) by lia.
+    assert (K' : (k = 1 \/ k = 2 \/ k = 3 \/ k = 4 \/ k = 5 \/ k = 6)%nat) by lia.
+    destruct J as [J|[J|[J|[J|J]]]]; subst j;
+      destruct K' as [K'|[K'|[K'|[K'|[K'|K']]]]]; subst k;
+      unfold reset_order, reset_queue, reset_direct, all_batches; rewrite batches_unfold;
+      cbn [firstn skipn nth app]; cbn [apply_all fold_left];
+      repeat (rewrite get_apply;
+              rewrite ?sem_gc_stage, ?sem_b0_stage, ?sem_b1_stage, ?sem_b2_stage, ?sem_b3_stage, ?sem_b4_stage);
+      eexists; reflexivity.
+  Qed.
+
+  (* the variant without the edge: the direct operation may come first; then the first boundary has neither *)
+  Lemma no_edge_breaks :
+    ~ marker_on (ordered 0 1) /\ get (ordered 0 1) (KState p) = None /\ get d (KState p) <> None.
+  Proof.
+    inv_fields. unfold ordered, marker_on.
+    unfold reset_order, reset_queue, reset_direct, all_batches. rewrite batches_unfold.
+    cbn [firstn skipn nth app]. cbn [apply_all fold_left].
+    assert (E : cur_prefix x5 = negb p) by (unfold cur_prefix; gx; rewrite Iv; reflexivity).
+    repeat split.
+    - intros (s & Hs). rewrite get_apply, sem_gc_stage, Isg in Hs. discriminate.
+    - rewrite get_apply. unfold reset_gc. rewrite E, negb_involutive. simpl. rewrite Bool.eqb_reflx. reflexivity.
+    - rewrite Ist. discriminate.
+  Qed.
+
+  (* ---- resumability for the orders the code admits (unbuffered channel: j = 4 or 5) ---- *)
+  Definition y5 := apply x4 (bgc x5).
+  Definition y6 := apply y5 (b4 h x4).
+  Definition y7 := apply y6 (b5 x6).
+
+  Lemma gc_same : bgc x5 = bgc x4.
+  Proof. unfold reset_gc, cur_prefix, x5. rewrite get_b4. reflexivity. Qed.
+
+  Lemma y6_eq : db_eq y6 x6.
+  Proof.
+    unfold y6, y5, x6, x5. intros key.
+    apply (apply_comm x4 (bgc (apply x4 (b4 h x4))) (b4 h x4)).
+    intros k. destruct k; try (left; reflexivity). right. apply sem_b4_state.
+  Qed.
+
+  Lemma y7_eq : db_eq y7 x7.
+  Proof. unfold y7, x7. apply db_eq_apply, y6_eq. Qed.
+
+  Lemma Inv_db_eq (y x : db) q a b : db_eq y x -> Inv x q a b -> Inv y q a b.
+  Proof.
+    intros E [Iv Icb Ich Ile Iex Itx Irt Ist Iot Isg Ipt Ipg Ifu].
+    constructor; intros; rewrite ?E; auto.
+  Qed.
+
+  (* resuming at transfersReset from any database that reads like x6 *)
+  Lemma gc_again (y : db) :
+    db_eq y x6 -> db_eq (apply (apply y (bgc y)) (b5 (apply y (bgc y)))) x7.
+  Proof.
+    intros E key. unfold x7. rewrite !get_b5.
+    destruct key; try reflexivity; rewrite get_gc; try apply E.
+    assert (C : cur_prefix y = cur_prefix x5).
+    { unfold cur_prefix. rewrite (E KVersion). unfold x6. rewrite get_gc. reflexivity. }
+    rewrite C, (E (KState p0)). unfold x6. rewrite get_gc.
+    destruct (Bool.eqb p0 (negb (cur_prefix x5))); reflexivity.
+  Qed.
+
+  Theorem reset_resumable_ordered (j k : nat) :
+    reset_admissible 0 j = true -> (1 <= k <= 7)%nat ->
+    fx_keep_headers fx = true -> fx_sr_init fx = true ->
+    exists n, boot (ordered j k) = Up n /\ height n = h /\ hheight n = h /\
+              db_eq (disk n) (apply_all d all_batches).
+  Proof.
+    intros Hj Hk Hkeep Hinit.
+    assert (J : (j = 4 \/ j = 5)%nat).
+    { unfold reset_admissible in Hj. apply andb_true_iff in Hj as [A B].
+      apply Nat.leb_le in A. apply Nat.leb_le in B. simpl in A. lia. }
+    destruct J as [->| ->].
+    2: { unfold ordered. rewrite order_5. apply reset_resumable; auto. }
+    assert (K : (k <= 4 \/ k = 5 \/ k = 6 \/ k = 7)%nat) by lia.
+    destruct K as [K|[K|[K|K]]].
+    - (* before the direct operation both orders coincide *)
+      replace (ordered 4 k) with (after k); [apply reset_resumable; auto; lia|].
+      unfold ordered, after. rewrite order_4. unfold all_batches. rewrite batches_unfold.
+      assert (K' : (k = 1 \/ k = 2 \/ k = 3 \/ k = 4)%nat) by lia.
+      destruct K' as [->|[->|[->| ->]]]; reflexivity.
+    - (* the old storage is collected, the transfersReset batch is not there: resumed from headersReset *)
+      subst k. pose proof hle as Hle. pose proof root_h as Hr.
+      change (ordered 4 5) with y5. unfold y5. rewrite gc_same.
+      set (z := apply x4 (bgc x4)).
+      assert (Z : forall key, get z key = match key with
+                                           | KState q => if Bool.eqb q (negb (cur_prefix x4)) then None else get x4 key
+                                           | _ => get x4 key end) by (intros; apply get_gc).
+      exists (mkNode (apply_all z (reset_batches h h h 16 z)) [] h h).
+      rewrite (boot_resume z (VPrefix (negb p)) h h 16).
+      + simpl. repeat split; auto.
+        change (reset_batches h h h 16 z) with
+          [b4 h z; bgc (apply z (b4 h z)); b5 (apply (apply z (b4 h z)) (bgc (apply z (b4 h z))))].
+        simpl apply_all. apply gc_again.
+        intros key. unfold x6, x5. rewrite get_gc, !get_b4.
+        assert (C2 : cur_prefix (apply x4 (b4 h x4)) = cur_prefix x4) by (unfold cur_prefix; rewrite get_b4; reflexivity).
+        rewrite C2.
+        destruct key; rewrite ?Z; reflexivity.
+      + inv_fields. rewrite Z. gx. rewrite Iv. reflexivity.
+      + rewrite Z. gx. reflexivity.
+      + rewrite Z. gx. reflexivity.
+      + apply hok_late; intros; rewrite Z; gx.
+        * destruct (N.leb_spec ((h + 1) / PS * PS) n); [lia|reflexivity].
+        * destruct (N.ltb_spec h j); [lia|reflexivity].
+      + rewrite Z. gx. reflexivity.
+      + rewrite Z. gx. reflexivity.
+      + apply exec_h. intros; rewrite Z; gx. destruct (N.ltb_spec h j); [lia|reflexivity].
+      + rewrite Z. gx. rewrite Hr. reflexivity.
+    - (* both there, in the other order: reads like x6 *)
+      subst k. pose proof hle as Hle. pose proof root_h as Hr. pose proof y6_eq as E.
+      change (ordered 4 6) with y6.
+      exists (mkNode (apply_all y6 (reset_batches h h h 32 y6)) [] h h).
+      rewrite (boot_resume y6 (VPrefix (negb p)) h h 32).
+      + rewrite Hinit. simpl. repeat split; auto. apply gc_again, E.
+      + inv_fields. rewrite E. gx. rewrite Iv. reflexivity.
+      + rewrite E. gx. reflexivity.
+      + rewrite E. gx. reflexivity.
+      + apply hok_late; intros; rewrite E; gx.
+        * destruct (N.leb_spec ((h + 1) / PS * PS) n); [lia|reflexivity].
+        * destruct (N.ltb_spec h j); [lia|reflexivity].
+      + rewrite E. gx. reflexivity.
+      + rewrite E. gx. reflexivity.
+      + apply exec_h. intros; rewrite E; gx. destruct (N.ltb_spec h j); [lia|reflexivity].
+      + rewrite E. gx. rewrite N.ltb_irrefl, Hr. reflexivity.
+    - (* complete *)
+      subst k. change (ordered 4 7) with y7.
+      pose proof (Inv_db_eq y7 x7 (negb p) h h y7_eq reset_final_inv) as I7.
+      pose proof y7_eq as E7.
+      set (Y := y7) in *. clearbody Y.
+      exists (mkNode Y [] h h).
+      unfold Stages.boot. rewrite (recover_inv exec root genesis ntx PS (fun _ => []) trusted PS_big Y (negb p) h h I7).
+      pose proof (i_point _ _ _ _ _ _ _ _ _ I7) as P7.
+      simpl. rewrite P7.
+      repeat split; auto.
   Qed.
 
   (* reset_indistinguishable (ledger level): the database after Reset(h) satisfies the invariant of a node
